@@ -15,7 +15,6 @@ package main
 import (
 	"fmt"
 	"math"
-	"os"
 	"reflect"
 	"strconv"
 	"strings"
@@ -365,14 +364,18 @@ func reasonsUnder(entry string, fs []Field, toks []Tok, asPresent map[int]bool) 
 	for i, f := range fs {
 		t := toks[i]
 		dc := delivery(entry, f)
-		switch unj := depUnjudged(entry, fs, i); {
-		case unj: // dependency through a dotted key: not judged (keys.go); the field counts as optional
-		case f.Opt == OptDep: // both or neither
-			if pres[i] != pres[f.Dep] {
-				out = append(out, reason{"dep-relation", i})
+		if f.Opt >= OptDep {
+			selfOn, depOn := pres[i], pres[f.Dep]
+			if diagFlat != nil && depThroughDotted(entry, fs, i) { // diagnostic reading only
+				if f.dotted() {
+					selfOn = diagFlat[i]
+				}
+				if fs[f.Dep].dotted() {
+					depOn = diagFlat[f.Dep]
+				}
 			}
-		case f.Opt == OptNotDep: // exactly one
-			if pres[i] == pres[f.Dep] {
+			// optional=dep: both or neither; optional=!dep: exactly one
+			if (f.Opt == OptDep) == (selfOn != depOn) {
 				out = append(out, reason{"dep-relation", i})
 			}
 		}
@@ -421,57 +424,42 @@ func reasonsUnder(entry string, fs []Field, toks []Tok, asPresent map[int]bool) 
 
 // ---------------------------------------------------------------------------------------------
 // Dotted key names (keys.go). The mapping package documents a dotted key as a path ("the key can be
-// in the format of parentKey.childKey") and WithOpaqueKeys as "one name, dots included" (form and
-// path parameters). The statement itself says nothing about key names, so:
-//   * json / key / conf: the value under the path p → q is the supplied field; under form / path
-//     the flat parameter "p.q" is.
+// in the format of parentKey.childKey") and WithOpaqueKeys as "one name, dots included" (form, path
+// and — since /repo c661af9 — header parameters). The statement itself says nothing about key
+// names, so:
+//   * json / key / conf / yaml / toml: the value under the path p → q is the supplied field; under
+//     form / path / header the flat parameter "p.q" is.
 //   * the OTHER placement (a flat member "p.q" in a document, a nested map below a form / path /
 //     header unmarshaler) is read both as "field absent" and as "field supplied": a rejection is
 //     demanded only if both readings demand it, acceptance never, the target may hold the value or
 //     the default / zero value.
-//   * header: both placements are read both ways (a request can only deliver the flat header
-//     "P.q", the unmarshaler looks for the path P → q; see NOTES.md, candidate finding 7).
-//   * optional=dep / optional=!dep where the field's own key or the dependency's key is dotted, below
-//     a path-reading unmarshaler: the relation is not judged and the field counts as optional (the
-//     library resolves dependencies by the flat key text; NOTES.md, candidate finding 6).
-//     C08_STRICT=1 judges all of these strictly (the findings then show as violations).
-// History independence (hist.go, keys.go) pins all of them: whatever the outcome is, it is the same
-// in every process history.
+// Everything else is judged strictly, dependencies through dotted keys included. Two deviations of
+// the pinned tree in this area have ONE cause key each (run.go knownCause): the strict finding is
+// re-judged under a diagnostic reading that models exactly the deviation; if the observation agrees
+// with that reading, the class is the cause key, otherwise the ordinary class.
+// History independence (hist.go, keys.go) pins the bracketed outcomes: whatever the outcome is, it is
+// the same in every process history.
 
-var strictDotted = os.Getenv("C08_STRICT") != "" || os.Getenv("C08_STRICT_DOTTED") != ""
+func pathReading(dc string) bool { return dc == "json" || dc == "native" }
 
-func pathReading(dc string) bool { return dc == "json" || dc == "native" || dc == "header" }
-
-func depUnjudged(entry string, fs []Field, i int) bool {
+// depThroughDotted: field i depends on a sibling, its own key or the dependency's key contains the
+// path separator, and the unmarshaler reads dotted keys as paths.
+func depThroughDotted(entry string, fs []Field, i int) bool {
 	f := fs[i]
-	if f.Opt < OptDep || strictDotted {
-		return false
-	}
-	if bareEmbeddedHeader(entry, fs[f.Dep]) {
-		return true // the dependency is found under its canonical key, the member itself is not (candidate finding 9)
-	}
-	return (f.dotted() || fs[f.Dep].dotted()) && pathReading(delivery(entry, f))
+	return f.Opt >= OptDep && (f.dotted() || fs[f.Dep].dotted()) && pathReading(delivery(entry, f))
 }
 
-// bareEmbeddedHeader: a member of an `,optional` embedded struct whose header tag carries no option:
-// the library looks it up under the un-canonicalised key and never finds it (NOTES.md, candidate
-// finding 9); read both ways unless C08_STRICT=1.
-func bareEmbeddedHeader(entry string, f Field) bool {
-	return f.Kind == KEmbed && f.EmbOpt && delivery(entry, f) == "header" &&
-		f.Opt == OptNone && f.Def == "" && f.Rng < 0 && !f.Opts && !f.Str
-}
+// diagFlat (diagnostic reading "dep-through-dotted-key", nil = off): the presence test of a
+// dependency relation that goes through a dotted key is made with the FLAT key text — a dotted key
+// counts as present iff the document holds one flat member of that name (diagFlat[j]) —, everything
+// else as usual. Set only by knownCause, around one judgement (the evaluator runs on one goroutine).
+var diagFlat []bool
 
 // placementSites: the fields whose presence is read both ways.
 func placementSites(entry string, fs []Field, toks []Tok) []int {
 	var s []int
 	for i, t := range toks {
-		switch {
-		case t.T == "absent":
-		case t.T == "alt":
-			s = append(s, i)
-		case fs[i].dotted() && delivery(entry, fs[i]) == "header" && !strictDotted:
-			s = append(s, i)
-		case bareEmbeddedHeader(entry, fs[i]) && !strictDotted:
+		if t.T == "alt" {
 			s = append(s, i)
 		}
 	}
@@ -559,7 +547,7 @@ func mustReject0(entry string, fs []Field, toks []Tok) []reason {
 // holds, no null anywhere, and no case the statement is silent about is involved.
 func mustAccept0(entry string, fs []Field, toks []Tok) bool {
 	for i, t := range toks {
-		if t.hasNull() || depUnjudged(entry, fs, i) {
+		if t.hasNull() {
 			return false
 		}
 		f := fs[i]
